@@ -88,13 +88,21 @@ def jacobiTall (A0 : FMat) (sweeps : Nat := 80) : FMat × Array Float × FMat :=
 
 /-- thin SVD of any shape as the typed record of the model -/
 def jacobiSVD (n m : Nat) (A : Mat n m Float) : SVD n m Float :=
-  let F := FMat.ofMat A
+  let F0 := FMat.ofMat A
+  -- like the implementation's routine, work on the matrix divided by (the power of two next to) its
+  -- largest magnitude, so that sums of squares neither overflow nor vanish as a whole
+  let amax := F0.maxAbs
+  let e : Int := if amax > 0.0 && amax.isFinite then amax.frExp.2 else 0
+  let F : FMat := { F0 with a := F0.a.map (·.scaleB (-e)) }
+  let back (sig : Array Float) : Array Float := sig.map (·.scaleB e)
   if n ≥ m then
     let (U, sig, V) := jacobiTall F
+    let sig := back sig
     { r := m, U := U.toMat n m, sigma := Vector.ofFn fun i => sig.getD i.val 0.0,
       Vt := V.transpose.toMat m m }
   else
     let (U', sig, V') := jacobiTall F.transpose   -- Aᵀ = U' σ V'ᵀ  (m×n, n, n×n)
+    let sig := back sig
     { r := n, U := V'.toMat n n, sigma := Vector.ofFn fun i => sig.getD i.val 0.0,
       Vt := U'.transpose.toMat n m }
 
